@@ -3,7 +3,7 @@ import z3
 from pyvc import terms as T
 from pyvc import spec as S
 from pyvc.spec import And, Or, Not, Implies, If
-from pyvc.contract import Contract, Shape, Loop, IntT, BoolT, ConstT, NoneT, ObjT
+from pyvc.contract import Contract, Shape, Loop, IntT, BoolT, ConstT, NoneT, ObjT, OptIntT
 from pyvc.values import Sym, fresh, mk_int
 
 M = "window:"
@@ -60,6 +60,11 @@ get_cursor_position.assumed = True
 def _once_ensures(a, r):
     o, f = a.self, a.final.self
     rep = f.ghost_reported_row
+    if z3.is_expr(o._last_cursor_row) and o._last_cursor_row.sort() == T.OptInt:
+        lo = o._last_cursor_row
+        return [("post.first_query", Implies(T.OptInt.is_none(lo), And(r == 0, f.top_usable_row == o.top_usable_row))),
+                ("post.conserve", Implies(T.OptInt.is_some(lo), (f.top_usable_row - o.top_usable_row) + r == rep - T.OptInt.optv(lo))),
+                ("post.last_row", _same_row(f._last_cursor_row, rep)), ("post.one_query", f.ghost_queries == o.ghost_queries + 1)]
     if o._last_cursor_row is None:
         return [("post.first_query", And(r == 0, f.top_usable_row == o.top_usable_row)),
                 ("post.last_row", f._last_cursor_row == rep), ("post.one_query", f.ghost_queries == o.ghost_queries + 1)]
@@ -67,9 +72,18 @@ def _once_ensures(a, r):
             ("post.last_row", f._last_cursor_row == rep), ("post.one_query", f.ghost_queries == o.ghost_queries + 1)]
 
 
+def _same_row(x, rep):
+    if z3.is_expr(x) and x.sort() == T.OptInt:
+        return x == T.OptInt.some(rep)
+    return x == rep
+
+
 def _once_inv(L):
     s, o = L.self, L.old.self
-    return [s.top_usable_row + L.cursor_dy == o.top_usable_row + (L.row - o._last_cursor_row),
+    last = o._last_cursor_row
+    if z3.is_expr(last) and last.sort() == T.OptInt:
+        last = T.OptInt.optv(last)
+    return [s.top_usable_row + L.cursor_dy == o.top_usable_row + (L.row - last),
             s.ghost_reported_row == L.row, s.ghost_queries == o.ghost_queries + 1]
 
 
@@ -81,21 +95,28 @@ def _once_effect(a, st, res):
     last = o.fields["_last_cursor_row"]
     top0 = S_int(o.fields["top_usable_row"])
     top1 = fresh("top_after", T.I)
-    moved = z3.IntVal(0) if last is None else (rep.t - S_int(last))
-    st.fact((top1 - top0) + res.t == moved)
     if last is None:
+        moved = z3.IntVal(0)
         st.fact(res.t == 0, top1 == top0)
+    elif isinstance(last, Sym) and last.tag == "optint":
+        moved = z3.If(T.OptInt.is_none(last.t), 0, rep.t - T.OptInt.optv(last.t))
+        st.fact(z3.Implies(T.OptInt.is_none(last.t), z3.And(res.t == 0, top1 == top0)))
+    else:
+        moved = rep.t - S_int(last)
+    st.fact((top1 - top0) + res.t == moved)
     o.fields["top_usable_row"] = Sym("int", top1)
-    o.fields["_last_cursor_row"] = rep
+    o.fields["_last_cursor_row"] = Sym("optint", T.OptInt.some(rep.t))
     o.fields["ghost_moved"] = mk_int(S_int(o.fields["ghost_moved"]) + moved)
 
 
 once = Contract(
     M + "CursorAwareWindow._get_cursor_vertical_diff_once", "C18", ["self"], kind="method",
-    shapes=[Shape("first", dict(self=_caw(None))), Shape("later", dict(self=_caw(_I())))],
+    shapes=[Shape("first", dict(self=_caw(None))), Shape("later", dict(self=_caw(_I()))), Shape("optional", dict(self=_caw(OptIntT())))],
     ensures=_once_ensures, result=IntT(),
     loops={0: Loop(inv=_once_inv), 1: Loop(inv=_once_inv)})
 once.effect = _once_effect
+once.modifies = ["top_usable_row", "_last_cursor_row", "ghost_moved", "ghost_reported_row", "ghost_queries", "another_sigwinch"]
+get_cursor_position.modifies = ["ghost_reported_row", "ghost_queries", "another_sigwinch"]
 
 
 # ---------------------------------------------------------------------------------------------
@@ -115,9 +136,8 @@ def _diff_ensures(a, r):
 
 diff = Contract(
     M + "CursorAwareWindow.get_cursor_vertical_diff", "C18", ["self"], kind="method",
-    shapes=[Shape("nested", dict(self=_caw(_I(), in_diff=True))),
-            Shape("outer_first", dict(self=_caw(None, in_diff=False))),
-            Shape("outer_later", dict(self=_caw(_I(), in_diff=False)))],
+    shapes=[Shape("nested", dict(self=_caw(OptIntT(), in_diff=True))),
+            Shape("outer", dict(self=_caw(OptIntT(), in_diff=False)))],
     ensures=_diff_ensures, result=IntT(),
     loops={0: Loop(inv=lambda L: [(L.self.top_usable_row - L.old.self.top_usable_row) + L.cursor_dy ==
                                   L.self.ghost_moved - L.old.self.ghost_moved,
